@@ -4,7 +4,7 @@ CONSTANTS
   MaxTasks = 6
   MaxNest = 3
   MaxSteps = 24
-  Endings = {"plain", "tryexc", "tryfin", "condret", "acm"}
+  Endings = {"plain", "tryexc", "tryfin", "condret", "acm", "wrap"}
   Portals = TRUE
 INVARIANT TreeShape
 INVARIANT AexitHasKids
